@@ -358,6 +358,7 @@ class ElectionProfile:
                 wd = -int(tok)          # flip sign
                 if wd <= 0:
                     break               # terminate on multiplier
+                wd = self.getCid(wd, 'withdrawn-candidate list')   # validate the candidate ID
                 if wd in self.withdrawn:
                     raise ElectionProfileError('bad blt: duplicate withdrawn candidate')
                 self.withdrawn.add(wd) # withdrawn candidate
